@@ -11,6 +11,8 @@
 //	unjson=<value|CRASH|CORRUPT>      compared with of_tree (model) and norm v    (property)
 //	unmsgpack=<...>                   same, through msgpack
 //	codec=<1|0>                       the Go tree read from the msgpack bytes equals the one read from the JSON
+//	mp=<hex of (msgpack v)>           compared with the model's mp_bytes (correspondence); read by the extracted
+//	                                  msgpack reader mp_decode and compared with the specification's Go tree (property)
 //
 // Case lines: "V <value>" (see value.go), "W <k> <i> <schedule seed> <value>*k" (the i-th value of an
 // interleaved history: stable=<1|0> says whether its encodings kept their bytes), "T <n> <value>" (interp.go: observed in the n-th of two fresh interpreters),
@@ -69,6 +71,7 @@ type obs struct {
 	unjson    string
 	unmsgpack string
 	codec     string
+	mp        []byte // the bytes of (msgpack v); nil when the builtin failed
 	stable    string // W cases: the bytes of this encoding did not change while later values were encoded/decoded
 }
 
@@ -77,7 +80,11 @@ func (o obs) String() string {
 	if o.jsonOK {
 		j = hexs(o.json)
 	}
-	return "json=" + j + ";std=" + o.std + ";stdv=" + o.stdv + ";unjson=" + o.unjson + ";unmsgpack=" + o.unmsgpack + ";codec=" + o.codec + ";stable=" + o.stable
+	m := "ERR"
+	if o.mp != nil {
+		m = hexs(o.mp)
+	}
+	return "json=" + j + ";std=" + o.std + ";stdv=" + o.stdv + ";unjson=" + o.unjson + ";unmsgpack=" + o.unmsgpack + ";codec=" + o.codec + ";stable=" + o.stable + ";mp=" + m
 }
 
 func observedValue(r lib.Result) string {
@@ -116,6 +123,7 @@ func observe(env *zygo.Zlisp, x zygo.Sexp) obs {
 		return o
 	}
 	env.AddGlobal("m", mraw)
+	o.mp = append([]byte{}, mraw.Val...)
 	o.unmsgpack = observedValue(lib.Eval(env, "(unmsgpack m)", budget))
 	o.codec = codecIdentity(o.json, []byte(mraw.Val))
 	return o
@@ -503,6 +511,7 @@ func (r *runner) observeHistory(vs []*gv, order *lib.Rng) ([]*gv, []obs, bool) {
 			if !bytes.Equal(it.m.Val, it.snapM) {
 				o.stable = "0"
 			}
+			o.mp = append([]byte{}, it.m.Val...)
 			if it.decM {
 				o.unmsgpack = observedValue(it.unm)
 			}
@@ -812,6 +821,10 @@ func main() {
 	// 2. shapes: empty containers, reserved and near-reserved names, type names
 	for _, v := range g.shapes() {
 		r.value(v, "shape")
+	}
+	// 2b. sizes on the boundaries of msgpack's length-prefixed formats
+	for _, v := range g.sized(a.Tier) {
+		r.value(v, "size-boundary")
 	}
 	// 3. source literals
 	for _, s := range sourceTexts {
